@@ -320,9 +320,14 @@ def apply_rubber_band(molecule, selector,
 
     coordinates = np.stack(coordinates)
     if np.any(np.isnan(coordinates)):
+        # The molecule type name lives in the molecule's meta; an attribute of
+        # that name only exists if somebody set it.
+        moltype = getattr(molecule, 'moltype', None)
+        if moltype is None:
+            moltype = molecule.meta.get('moltype', 'unnamed')
         LOGGER.warning("Found nan coordinates in molecule {}. "
                        "Will not generate an EN for it. ",
-                       molecule.moltype,
+                       moltype,
                        type='unmapped-atom')
         return
 
